@@ -133,7 +133,9 @@ func VerifBlockGraphs(prog *ProgramAnalysisState, f *ssa.Function) []*EscapeGrap
 }
 
 // VerifReprocess re-applies the block transfer function to every block of every summarised function once
-// and reports the blocks whose end graph changed: none if the analysis stopped at a fixpoint.
+// and reports the blocks whose end graph changed: none if the analysis stopped at a fixpoint. A graph that differs
+// from the stored one only in which load node represents an object (same shape under VerifHash) does not count: the
+// choice of representative depends on the history of the node group, not on the abstract state.
 func VerifReprocess(prog *ProgramAnalysisState) []string {
 	var changed []string
 	for _, f := range VerifSummarized(prog) {
@@ -145,7 +147,8 @@ func VerifReprocess(prog *ProgramAnalysisState) []string {
 			if _, reached := s.blockEnd[b]; !reached {
 				continue
 			}
-			if s.ProcessBlock(b) {
+			before := s.blockEnd[b]
+			if s.ProcessBlock(b) && VerifHash(before) != VerifHash(s.blockEnd[b]) {
 				changed = append(changed, fmt.Sprintf("%s block %d", f.String(), b.Index))
 			}
 		}
